@@ -10,6 +10,7 @@ from vlib.harness import V, derive_seed, run_shards
 from vlib.lib import call, mod
 
 PROPERTY = 'C05'
+AMBIENT_PASS = 'thorough-only'       # (thorough tier only: it doubles an 80 s check) the same search once more under unusual ambient settings (vlib.run.AMBIENT_SETTINGS)
 RULE = ('adjacent pairs (c, c+1) of centi-marks for every table/event/gender/age of each system (combined events with '
         'age None + every masters band + ESAA, Hungarian 145 keys, Tyrving every age of every row in automatic and '
         'hand-timed text form, QuadKids, Sportshall, Bulgarian), swept as runs of consecutive marks from well below to '
